@@ -8,6 +8,8 @@ package main
 
 import (
 	"fmt"
+
+	"golang.org/x/tools/go/ssa"
 )
 
 type tileCtx struct {
@@ -648,4 +650,147 @@ func (r *bitVec) orShift(b *bitVec, k int) *bitVec {
 		out.B[i] = b.B[i+k]
 	}
 	return &out
+}
+
+// ---------------------------------------------------------------------------
+// C14: a cover of a multi geometry or collection is the union of its members' covers
+
+type coverCtx struct {
+	member map[string]int
+	n      int
+}
+
+func coverMemberSpecs(thorough bool) []composeSpec {
+	maxM := 3
+	if thorough {
+		maxM = 5
+	}
+	mkCases := func(kind string, member func() *GeomHyp) []composeCase {
+		var cases []composeCase
+		for m := 0; m <= maxM; m++ {
+			m := m
+			cases = append(cases, composeCase{fmt.Sprintf("%d members", m), func(it *Interp, s *State) ([]AV, interface{}) {
+				var hs []*GeomHyp
+				for i := 0; i < m; i++ {
+					hs = append(hs, member())
+				}
+				g := it.buildGeom(s, of(kind, hs...))
+				ctx := &coverCtx{member: map[string]int{}, n: m}
+				for i, e := range membersOf(s, g) {
+					if iv, ok := e.(IfaceV); ok {
+						ctx.member[identString(iv.Val)] = i
+					} else {
+						ctx.member[identString(e)] = i
+					}
+				}
+				return []AV{g, intOf(9)}, ctx
+			}})
+		}
+		return cases
+	}
+	mapIdent := func(v AV) string {
+		if m, ok := v.(MapV); ok {
+			return fmt.Sprintf("map@%d", m.Cell)
+		}
+		return identString(v)
+	}
+	// every member is handed once (with the zoom) to the part function, together with / merged into the result set
+	judge := func(part string, setArg, memberArg int, merge string) func(it *Interp, cx interface{}, st *State) string {
+		return func(it *Interp, cx interface{}, st *State) string {
+			ctx := cx.(*coverCtx)
+			if len(st.result) == 2 {
+				if isNil, known := nilness(st.result[1]); known && !isNil {
+					return "" // a member failed: the error is passed on
+				}
+			}
+			res := mapIdent(st.result[0])
+			seen := map[int]int{}
+			produced := map[string]int{}
+			for _, ev := range eventsOf(st, part) {
+				a := ev.Args[memberArg]
+				if iv, ok := a.(IfaceV); ok {
+					a = iv.Val
+				}
+				i, ok := ctx.member[identString(a)]
+				if !ok {
+					return fmt.Sprintf("the part function at %s is given a value that is not a member", ev.Pos)
+				}
+				seen[i]++
+				if setArg >= 0 && mapIdent(ev.Args[setArg]) != res {
+					return fmt.Sprintf("member %d is covered into a set that is not the result", i)
+				}
+				if merge != "" {
+					produced[mapIdent(ev.Out[0])] = i
+				}
+			}
+			for i := 0; i < ctx.n; i++ {
+				if seen[i] != 1 {
+					return fmt.Sprintf("member %d is covered %d time(s), want once", i, seen[i])
+				}
+			}
+			if merge != "" {
+				merged := map[int]int{}
+				for _, ev := range eventsOf(st, merge) {
+					if mapIdent(ev.Args[0]) != res {
+						return "a member's cover is merged into a set that is not the result"
+					}
+					i, ok := produced[mapIdent(ev.Args[1])]
+					if !ok {
+						return "something that is not a member's cover is merged into the result"
+					}
+					merged[i]++
+				}
+				for i := 0; i < ctx.n; i++ {
+					if merged[i] != 1 {
+						return fmt.Sprintf("the cover of member %d is merged %d time(s) into the result, want once", i, merged[i])
+					}
+				}
+			}
+			return ""
+		}
+	}
+	freshSetErr := func(fn *ssa.Function) oracleFunc {
+		return func(it *Interp, s *State, _ []AV) [][]AV {
+			return [][]AV{
+				{MapV{Cell: it.newCell(s, TopV{})}, IfaceV{Nil: true}},
+				{MapV{Nil: true}, nonNilError()},
+			}
+		}
+	}
+	errOrNil := func(fn *ssa.Function) oracleFunc {
+		return func(it *Interp, s *State, _ []AV) [][]AV {
+			return [][]AV{{IfaceV{Nil: true}}, {nonNilError()}}
+		}
+	}
+	noResult := func(fn *ssa.Function) oracleFunc {
+		res := fn.Signature.Results()
+		return func(it *Interp, s *State, _ []AV) [][]AV {
+			var o []AV
+			for i := 0; i < res.Len(); i++ {
+				o = append(o, topOf(res.At(i).Type(), false))
+			}
+			return [][]AV{o}
+		}
+	}
+	pkg := "maptile/tilecover."
+	return []composeSpec{
+		{
+			entry: pkg + "Collection", cases: mkCases("Collection", func() *GeomHyp { return pts("LineString", 2) }),
+			desc:    "the union of the members' covers: every member covered once at the same zoom and merged once into the result; a member's error is passed on",
+			oracles: map[string]func(*ssa.Function) oracleFunc{pkg + "Geometry": freshSetErr, "maptile.(Set).Merge": noResult},
+			judge:   judge(pkg+"Geometry", -1, 0, "maptile.(Set).Merge"),
+		},
+		{
+			entry: pkg + "MultiPolygon", cases: mkCases("MultiPolygon", func() *GeomHyp { return of("Polygon", pts("Ring", 4)) }),
+			desc:    "every member polygon covered once into the result set; a member's error is passed on",
+			oracles: map[string]func(*ssa.Function) oracleFunc{pkg + "polygon": errOrNil},
+			judge:   judge(pkg+"polygon", 0, 1, ""),
+		},
+		{
+			entry: pkg + "MultiLineString", cases: mkCases("MultiLineString", func() *GeomHyp { return pts("LineString", 2) }),
+			desc:    "every member line covered once into the result set",
+			oracles: map[string]func(*ssa.Function) oracleFunc{pkg + "line": noResult},
+			judge:   judge(pkg+"line", 0, 1, ""),
+		},
+	}
 }
